@@ -199,8 +199,12 @@ func (k *checker) evalText(i int, family, gen, text string, rt rootType, msgs []
 		if st == "present" {
 			// never a verdict (a parse error is allowed) but worth a look: kept as samples
 			c.Count("parse-rejected-present-paths", 1)
-			if k.notedRejects++; k.notedRejects <= 3 {
-				c.Note("parse error on a path whose element is present (allowed by C19, counted): %q: %s", text, errTail(perr))
+			if k.notedRejects++; k.notedRejects <= 1 && len(text) < 100 {
+				msg := firstLine(perr.Error())
+				if j := strings.Index(msg, "parse failure: "); j >= 0 {
+					msg = msg[j:]
+				}
+				c.Note("parse error on a path whose element is present (allowed by C19, counted), e.g. %q: %s", text, msg)
 			}
 		}
 		return false
